@@ -104,7 +104,18 @@ def bcast(vals, shape, to):
 
 # -- operands -------------------------------------------------------------------------------------------
 
-NUM_KINDS = ["pyint", "pyfloat", "npfloat", "npint", "arr0", "arr", "qdimless", "npfloat32", "npint32", "list"]
+NUM_KINDS = ["pyint", "pyfloat", "npfloat", "npint", "arr0", "arr", "qdimless", "npfloat32", "npint32", "list", "qscaled"]
+# dimensionless Quantities in a SCALED unit: the factor k written as (k / scale) [unit]; only (k, unit) pairs whose conversion to the unscaled
+# value is exact in doubles are used (so that the exact factor is not in doubt)
+SCALED_UNITS = {"percent": (u.percent, 100.0), "MHz/GHz": (u.MHz / u.GHz, 1000.0), "milli": (u.Unit(1e-3), 1000.0)}
+
+
+def scaled_quantity(k, which):
+    unit, mult = SCALED_UNITS[which]
+    qq = (k * mult) * unit
+    if float(qq.to_value(u.dimensionless_unscaled)) != k:
+        return None
+    return qq
 
 
 @st.composite
@@ -140,7 +151,10 @@ def number_operand(draw, shape_of, max_abs_log2=6, nonzero=False, kinds=NUM_KIND
     if nonzero and kind == "npfloat32":
         vals = [v if abs(v) >= 2.0**-12 else 3.0 for v in vals]
     imag = bool(allow_imag and draw(st.integers(0, 6)) == 0 and kind in ("pyfloat", "arr", "arr0"))
-    return {"kind": kind, "vals": vals, "shape": shape, "imag": imag}
+    out = {"kind": kind, "vals": vals, "shape": shape, "imag": imag}
+    if kind == "qscaled":
+        out["unit"] = draw(st.sampled_from(sorted(SCALED_UNITS)))
+    return out
 
 
 def mk_number(op):
@@ -166,11 +180,14 @@ def mk_number(op):
         return np.array(a.ravel()[0])
     if k == "qdimless":
         return a.ravel()[0] * u.dimensionless_unscaled
+    if k == "qscaled":
+        qq = scaled_quantity(float(vals[0]), op.get("unit", "percent"))
+        return float(vals[0]) * u.dimensionless_unscaled if qq is None else qq
     return a
 
 
 def number_exact(op):
-    if op["kind"] in ("pyint", "npint", "pyfloat", "npfloat", "arr0", "qdimless", "npint32", "npfloat32"):
+    if op["kind"] in ("pyint", "npint", "pyfloat", "npfloat", "arr0", "qdimless", "npint32", "npfloat32", "qscaled"):
         return [F(op["vals"][0])], []
     return [F(v) for v in op["vals"]], op["shape"]
 
@@ -396,6 +413,8 @@ def run_muldiv(case, stt):
 
 # -- 4. floor division, remainder, divmod ------------------------------------------------------------------------------
 
+ANGLE_UNITS = {"qdeg": (u.deg, 360.0), "qhourangle": (u.hourangle, 24.0), "qarcmin": (u.arcmin, 21600.0)}
+
 
 @st.composite
 def fd_case(draw):
@@ -403,7 +422,7 @@ def fd_case(draw):
     if draw(st.integers(0, 2)) == 0:
         # values a hair below / above a multiple of the divisor: fractions far below 1 ulp of the count
         p["frac"] = [draw(st.sampled_from([-1e-17, 1e-17, -5e-324, 5e-324, -(2.0**-60), 2.0**-60, -1e-5, 0.0, -(2.0**-14)])) for _ in p["frac"]]
-    dkind = draw(st.sampled_from(["qcycle", "qcycle", "phase", "qarr"]))
+    dkind = draw(st.sampled_from(["qcycle", "qcycle", "phase", "qarr", "qdeg", "qhourangle", "qarcmin"]))
     d = draw(st.sampled_from([1.0, 0.5, 0.25, 2.0, 3.0, 0.125, 7.0, 1.5, -1.0, -0.5, 10.0, 1024.0, 0.1, 1 / 3, 2.0**-10]))
     if draw(st.integers(0, 3)) == 0:
         # dividends a hair off a multiple of the divisor: m*d + tiny, |tiny| between 2^-52 and an ulp of d (and beyond)
@@ -433,7 +452,13 @@ def run_fd(case, stt):
     if any(abs(a / F(d)) > 2**52 for a in pex for d in dv):
         stt.label("skip_quotient_too_large")
         return
-    if case["dkind"] == "phase":
+    if case["dkind"] in ANGLE_UNITS:
+        unit, per_cycle = ANGLE_UNITS[case["dkind"]]
+        d = (dv[0] * per_cycle) * unit
+        if float(d.to_value(u.cycle)) != dv[0]:  # (conversion not exact in doubles: the divisor itself would be in doubt)
+            d = dv[0] * u.cycle
+            case = dict(case, dkind="qcycle")
+    elif case["dkind"] == "phase":
         d = pb.Phase(dv[0])
     elif case["dkind"] == "qarr":
         d = np.array(dv).reshape(ps["shape"]) * u.cycle
